@@ -214,6 +214,17 @@ fn compress_case(rep: &Report, idx: usize, seed: u64) -> Option<String> {
             std::fs::write(&out, b"previous").unwrap();
         }
         let temp = scn::temp_path_of(&out);
+        // The state an earlier failed or interrupted compress leaves behind: its temp file
+        // (any length), and unrelated neighbours that must not be touched.
+        let stale_temp = idx % 3 == 1 && temp != out;
+        if stale_temp {
+            let l = *rng.pick(&[0usize, 7, 100_000]);
+            std::fs::write(&temp, rng.bytes(l)).unwrap();
+        }
+        if idx % 4 == 2 {
+            std::fs::write(odir.join("neighbour.bin"), b"keep me").unwrap();
+        }
+        let before_out = listing(&odir);
         let before_in = listing(&dir);
         let trace = dir.join("strace.out");
         run.use_shim = false;
@@ -255,9 +266,23 @@ fn compress_case(rep: &Report, idx: usize, seed: u64) -> Option<String> {
             }
         }
         let after_out = listing(&odir);
-        let want: BTreeSet<String> = [out.file_name().unwrap().to_string_lossy().to_string()].into_iter().collect();
+        let oname_s = out.file_name().unwrap().to_string_lossy().to_string();
+        let tname_s = temp.file_name().unwrap().to_string_lossy().to_string();
+        // Exactly the archive is new; the temp file is gone (also one that was there before);
+        // nothing else appeared or vanished.
+        let mut want = before_out.clone();
+        want.insert(oname_s.clone());
+        if tname_s != oname_s {
+            want.remove(&tname_s);
+        }
         if after_out != want {
-            return Err(format!("after a successful compress the output directory holds {:?}, expected exactly {:?} (temp file {})", after_out, want, if unlinked_temp { "was unlinked" } else { "was NOT unlinked" }));
+            return Err(format!("after a successful compress the output directory holds {:?}, expected exactly {:?} (temp file {}{})", after_out, want, if unlinked_temp { "was unlinked" } else { "was NOT unlinked" }, if stale_temp { "; a stale temp file existed before" } else { "" }));
+        }
+        if after_out.contains("neighbour.bin") && std::fs::read(odir.join("neighbour.bin")).ok().as_deref() != Some(b"keep me".as_slice()) {
+            return Err("compress changed an unrelated file next to its output".into());
+        }
+        if stale_temp {
+            rep.count("compress.runs_with_stale_temp", 1);
         }
         let mut after_in = listing(&dir);
         after_in.remove("strace.out");
